@@ -31,7 +31,7 @@ package motion
 //@ pred (fl *FrameLoop) inv() :=
 //@      fl.storage()
 //@   && 0 <= fl.currentIndex && fl.currentIndex < fl.size
-//@   && ((fl.bufferFull && fl.base >= fl.size) || (!fl.bufferFull && fl.base == 0))
+//@   && (fl.base == 0 || fl.base >= fl.size) && (fl.base >= fl.size ==> fl.bufferFull)
 //@   && 0 <= fl.mark && fl.mark <= fl.n()
 //@   && ((fl.oldest == NO_OLDEST_SET) == (fl.mark <= fl.n() - fl.size))
 //@   && (fl.oldest != NO_OLDEST_SET ==> 0 <= fl.oldest && fl.oldest < fl.size && fl.seq(fl.oldest) == fl.mark)
@@ -82,8 +82,8 @@ package motion
 //@   requires fl != nil && fl.inv()
 //@   modifies elems(fl.orderedFrames)
 //@   ensures arr(result) == arr(fl.orderedFrames) && off(result) == off(fl.orderedFrames)
-//@   ensures len(result) == min(fl.n() + 1, fl.size)
-//@   ensures forall k int :: 0 <= k && k < len(result) ==> result[k] == fl.frames[fl.slot(fl.n() - len(result) + 1 + k)]
+//@   ensures len(result) == ((fl.bufferFull || fl.currentIndex == fl.size - 1) ? fl.size : fl.currentIndex + 1)
+//@   ensures forall k int :: 0 <= k && k < len(result) && len(result) - 1 - k <= fl.n() ==> result[k] == fl.frames[fl.slot(fl.n() - len(result) + 1 + k)]
 
 //@ func (fl *FrameLoop) GetHistory
 //@   requires fl != nil && fl.inv()
